@@ -33,7 +33,9 @@ EXPLANATION = (
     "as num_values - num_non_null; (6) min/max polarity: every store into a min_* (max_*) member or local "
     "reads only min (max) sources and every (pointer, size) argument pair names one bound; (7) "
     "carquet_column_index_add_page records a page as a null page exactly when its caller says so and "
-    "copies exactly the non-empty bounds it was given. Decides these clauses, not that written min/max "
+    "copies exactly the non-empty bounds it was given; (8) the page writer's update_statistics_i32 / _i64, "
+    "executed for two consecutive batches over every tuple of a 4-value alphabet (they only compare and copy, "
+    "so the ordering is all that matters), record the minimum and maximum of everything added. Decides these clauses, not that written min/max "
     "bound the data for every input, nor floating-point and byte-array orderings beyond the "
     "comparator-table clause.")
 
@@ -86,6 +88,63 @@ def false_store_guard(node):
             break
         cur = a
     return out
+
+
+def _page_bounds(ctx):
+    """update_statistics_i32 / _i64 executed abstractly on a fresh page writer for two consecutive batches whose
+    values range over every tuple of a 4-value alphabet (the functions only compare and copy their values, so their
+    behaviour depends on the ordering alone): the recorded bounds are the minimum and maximum of all values added."""
+    import itertools
+    from ..rules import sem
+    from ..rules.skeleton import Ptr, U
+    P = ctx.P
+    wo = sem.field_offsets(P, "carquet_page_writer")
+    A = (-7, 3, 3000000000, 12)          # as int32: 3000000000 wraps to a negative number; as int64 it is the largest
+    for name, bits in (("update_statistics_i32", 32), ("update_statistics_i64", 64)):
+        fn = P.fn(name, PW)
+        key = "page-bounds|%s:%s" % (PW, name)
+        what = ("%s leaves min = the smallest and max = the largest of all values added to the page, for every ordering of a first batch of "
+                "1..2 and a second batch of 1..3 values (abstract execution)" % name)
+        esz = bits // 8
+
+        def sval(v):
+            v &= (1 << bits) - 1
+            return v - (1 << bits) if v >> (bits - 1) else v
+        bad = None
+        n = 0
+        try:
+            batches1 = [t for k in (1, 2) for t in itertools.product(A, repeat=k)]
+            batches2 = [t for k in (1, 2) for t in itertools.product(A, repeat=k)] + [t for t in itertools.product(A, repeat=3) if len(set(t)) == 3]
+            for b1 in batches1:
+                heap = {("pw", wo["has_min_max"]): 0, ("pw", wo["min_max_size"]): 0}
+                for k_, b in enumerate((b1, None)):
+                    pass
+                # first batch once, then every second batch from the state it leaves
+                mem1 = lambda base, off, size, b=b1: sval(b[off // esz]) if base == "vals" and off // esz < len(b) else None
+                r1, e1, h1 = sem.run(P, fn, [Ptr("pw", 0, 1), Ptr("vals", 0, esz), len(b1)], heap0=heap, hooks={}, single=True, memory=mem1, budget=50000)
+                for b2 in batches2:
+                    n += 1
+                    mem2 = lambda base, off, size, b=b2: sval(b[off // esz]) if base == "vals" and off // esz < len(b) else None
+                    r2, e2, h2 = sem.run(P, fn, [Ptr("pw", 0, 1), Ptr("vals", 0, esz), len(b2)], heap0=h1, hooks={}, single=True, memory=mem2, budget=50000)
+
+                    def bound(member):
+                        bs = [h2.get(("pw", wo[member] + i)) for i in range(esz)]
+                        if not all(isinstance(x, int) for x in bs):
+                            return None
+                        return sval(sum((x & 0xFF) << (8 * i) for i, x in enumerate(bs)))
+                    allv = [sval(v) for v in b1 + b2]
+                    got = (bound("min_value"), bound("max_value"), h2.get(("pw", wo["has_min_max"])), h2.get(("pw", wo["min_max_size"])))
+                    want = (min(allv), max(allv), 1, esz)
+                    if got != want and bad is None:
+                        if None in got[:2]:
+                            raise sem.Inconclusive("bounds not tracked: %s" % (got,))
+                        bad = "batches %s then %s: min/max recorded as %s/%s, the values span %s..%s" % (
+                            [sval(v) for v in b1], [sval(v) for v in b2], got[0], got[1], want[0], want[1])
+        except (sem.Inconclusive, KeyError) as ex:
+            ctx.inconclusive("R6.must-pass", key, P.where(fn.body), what, "%s: %s" % (type(ex).__name__, ex))
+            continue
+        ctx.count("page_bounds_%d" % bits, n)
+        ctx.ob("R6.must-pass", key, P.where(fn.body), what, bad is None, bad or "")
 
 
 def run(ctx):
@@ -202,6 +261,8 @@ def run(ctx):
             okg = bool(writes) and all(fn.cfg.node_dominates(first, c) for c in writes)
         ctx.ob("R6.nan", "nan-guard|%s:%s" % (PW, name), P.where(fn.body),
                "%s tests for NaN before any min/max update" % name, okg)
+    ctx.clause("C16.8 the page writer's integer bounds are the minimum and maximum of everything added, for every ordering of two batches")
+    _page_bounds(ctx)
     nmc = _builder_copies(ctx)
     for file_, fnames in ((PW, None),):
         for fn in P.funcs_in(file_):
